@@ -92,19 +92,33 @@ fn call_any(slot: &mut Option<Unimock>, m: u32, a: u8) -> String {
             let u = slot.take().unwrap();
             obs(catch_unwind(AssertUnwindSafe(move || u.p_val(a).take())), show_val)
         }
-        17 => {
+        17 | 23 | 24 => {
             let rc = Rc::new(slot.take().unwrap());
-            obs(catch_unwind(AssertUnwindSafe(move || rc.p_rc(a).take())), show_val)
+            obs(
+                catch_unwind(AssertUnwindSafe(move || match m {
+                    17 => rc.p_rc(a).take(),
+                    23 => rc.r_rc(a).take(),
+                    _ => rc.p_rc2(a).take(),
+                })),
+                show_val,
+            )
         }
         18 => {
             let rc = Arc::new(slot.take().unwrap());
             obs(catch_unwind(AssertUnwindSafe(move || rc.p_arc(a).take())), show_val)
         }
-        21 => {
+        21 | 25 | 26 => {
             // another Rc to the same instance is kept alive during the call: the instance survives
             let rc = Rc::new(slot.take().unwrap());
             let keep = rc.clone();
-            let r = obs(catch_unwind(AssertUnwindSafe(move || rc.p_rc(a).take())), show_val);
+            let r = obs(
+                catch_unwind(AssertUnwindSafe(move || match m {
+                    21 => rc.p_rc(a).take(),
+                    25 => rc.r_rc(a).take(),
+                    _ => rc.p_rc2(a).take(),
+                })),
+                show_val,
+            );
             *slot = Rc::try_unwrap(keep).ok();
             r
         }
